@@ -382,7 +382,9 @@ func cmdRun(args []string) int {
 			oracleFails = append(oracleFails, i)
 		}
 		if m, ok := modelOf[i]; ok {
-			if m == "over-budget" {
+			if m == "over-budget" || strings.Contains(m, ":over-budget") {
+				// (a segment of the model's answer may be over its work budget on its own — e.g. the un-memoized run of
+				// C03 —: the case is skipped, never compared; an earlier version compared it: a false alarm, corrected)
 				skipped++
 				tags["skipped:model-budget"]++
 				continue
@@ -466,7 +468,7 @@ func cmdRun(args []string) int {
 					return false
 				}
 				m, err := runDriver(*driver, []string{caseLine(p, x)})
-				if err != nil || len(m) != 1 || m[0] == "over-budget" {
+				if err != nil || len(m) != 1 || m[0] == "over-budget" || strings.Contains(m[0], ":over-budget") {
 					return false
 				}
 				return compare(p, x, ox.Real, m[0]) != ""
